@@ -91,6 +91,20 @@ def independence_cell(res, operands, g, rng):
             for oa in all_arrays_cell(o):
                 if ra.size and oa.size and np.shares_memory(ra, oa):
                     bad.append(('aliasing', 'result array shares memory with an operand array'))
+    # pending-edit bookkeeping is per object as well: bring everything to a clean state, edit the result's boundary data - no operand
+    # may become "modified"; edit an operand's, refresh the result - the operand's edit must still be pending
+    if vars_ and not any(res is o or res.BCs is o.BCs for o in vars_):
+        for v_ in vars_ + [res]:
+            v_.apply_BCs()
+        res.BCs.left.c = np.asarray(res.BCs.left.c) + 0.25
+        if any(o.BCs.modified for o in vars_):
+            bad.append(('flags-coupled', 'a boundary-condition edit on the result marked an operand\'s boundary conditions as modified'))
+        res.apply_BCs()
+        vars_[0].BCs.right.c = np.asarray(vars_[0].BCs.right.c) - 0.5
+        res.apply_BCs()
+        if not vars_[0].BCs.modified:
+            bad.append(('flags-coupled', 'apply_BCs() on the result cleared the pending boundary-condition edit of an operand'))
+        vars_[0].apply_BCs()
     before = [snapshot_cell(o) for o in vars_]
     # edit the result: values, BC coefficient, periodic flag
     res.value = res.value + 1.0
@@ -290,7 +304,16 @@ def run_case(case):
                 arrs, _ = gen.face_arrays(rng, g, 'random', positive=False)
                 if positive:
                     arrs = [np.abs(x) + 0.5 for x in arrs]
-                return gen.facevar(pf, m, arrs)
+                if rng.random() < 0.5:
+                    return gen.facevar(pf, m, arrs)
+                # the other documented way: a uniform variable whose components are then assigned, whole arrays, under the labels
+                # of the grid's coordinate system
+                from ..oracles import LABELS
+                fv_ = pf.FaceVariable(m, 0.0)
+                for lab_, a_ in zip(LABELS[cls], arrs):
+                    setattr(fv_, {'x': 'xvalue', 'y': 'yvalue', 'z': 'zvalue', 'r': 'rvalue', 'theta': 'thetavalue', 'phi': 'phivalue'}[lab_], np.array(a_, dtype=float))
+                cov['face_components_via_labels'] = cov.get('face_components_via_labels', 0) + 1
+                return fv_
             nd = g.nd
             if kind == 'face-bin':
                 op = case['op']
@@ -434,6 +457,8 @@ def floors(agg, tier):
     for st in ('consistent', 'ghosts-given', 'value-edited', 'bc-edited', 'from-solveMatrixPDE'):
         if agg['cov'].get('copy_state:' + st, 0) < 9:
             out.append('copy_state:%s < 9' % st)
+    if agg['cov'].get('face_components_via_labels', 0) < 200:
+        out.append('face_components_via_labels < 200')
     if agg['cov'].get('small_unit_operands', 0) < 300:
         out.append('small_unit_operands < 300')
     if agg['cov'].get('ghost_checks', 0) < 500:
